@@ -1,7 +1,31 @@
 """C18 history workload: random interleavings of responder creation / enable /
 disable / one_shot / free / function replacement / permanent / CmdPeriod.run()
 (also performed from inside callbacks) with incoming messages and bundles,
-checked message by message against vf.model_dispatch.DispatchModel."""
+checked message by message against vf.model_dispatch.DispatchModel.
+
+Round 8, two classes the histories did not reach:
+
+* What a template predicate is evaluated WITH.  The function items of
+  arg_template are recording predicates (real_template): every evaluation must
+  have been given the argument of a message of the datagram at the predicate's
+  own position (documentation: 'evaluated with the corresponding message's
+  value at the same position') - never padding for an argument the message does
+  not have, a neighbouring argument or the address.  Some predicates are written
+  the way users write them (`x > 2`: TypeError for anything that is no OSC
+  value), so a foreign value also shows as an exception inside the dispatch.
+
+* An error path followed by continued use: responder creation that FAILS
+  (receive port held by another program, port number out of range / negative /
+  not an int, empty or non-str path; through the constructor, .matching, the
+  decorator and dispatcher instances; at top level and from inside callbacks),
+  then the history goes on: the other program goes away and the same creation
+  is tried again (or is tried again while the port is still taken), messages
+  are sent to the port the library has opened by then, the responder is freed,
+  the port closed.  A failed construction must leave nothing registered
+  (check_failed_residue: class listing, dispatchers, CmdPeriod), its function
+  must never be invoked afterwards, and the port of a responder whose creation
+  succeeded receives a loop-back datagram (probe: a failed attempt must not
+  leave the port half registered either)."""
 
 from . import osc
 from . import c18_gen as gen
@@ -38,11 +62,42 @@ FAULTS = {'Exception': InjectedFault, 'ValueError': InjectedValueError,
 INJECTED_PREFIX = 'vf.c18_hist.Injected'
 
 
-def real_template(t):
+# Predicates as users write them (`lambda x: x > 2`): defined on the values an
+# OSC message can carry, TypeError on anything else (None, a padding object).
+STRICT_PREDICATES = {'gt2', 'even', 'lt5'}
+OSC_VALUE_TYPES = (int, float, str, bytes, bool)
+
+# Creations that have to fail (round 8).  reason class -> what is handed over.
+FAIL_KINDS = {'port-in-use': 'recv-port-cannot-be-opened',
+              'port-out-of-range': 'recv-port-cannot-be-opened',
+              'port-negative': 'recv-port-cannot-be-opened',
+              'port-not-int': 'recv-port-cannot-be-opened',
+              'path-empty': 'invalid-path', 'path-not-str': 'invalid-path'}
+FAIL_CHOICES = ['port-in-use'] * 5 + ['port-out-of-range', 'port-negative',
+                                      'port-not-int', 'path-empty', 'path-not-str']
+
+
+def real_template(t, rid=None, sink=None):
+    """Template as handed to the library.  Function items are recording
+    predicates: every evaluation is reported to sink(rid, position, name,
+    value) before the (total) predicate of the model is applied; the
+    STRICT_PREDICATES raise TypeError for a value no OSC message carries."""
     if t is None:
         return None
-    return [None if it is None else it[1] if it[0] == 'val' else PREDICATES[it[1]]
-            for it in t]
+
+    def pred(pos, name):
+        f = PREDICATES[name]
+
+        def predicate(value):
+            if sink is not None:
+                sink((rid, pos, name, value))
+            if name in STRICT_PREDICATES and not isinstance(value, OSC_VALUE_TYPES):
+                raise TypeError(f"'>' not supported between instances of "
+                                f"'{type(value).__name__}' and 'int'")
+            return f(value)
+        return predicate
+    return [None if it is None else it[1] if it[0] == 'val' else pred(pos, it[1])
+            for pos, it in enumerate(t)]
 
 
 class HistoryRunner:
@@ -68,10 +123,19 @@ class HistoryRunner:
         self.fault_plan = {}     # rid -> (set of invocation numbers that raise, exc name)
         self.inv_no = {}         # rid -> invocations so far
         self.next_rid = 0
+        self.failed = {}         # rid -> reason class of a creation that failed
+        self.residue_todo = []   # (rid, callback, reason): look for what it left
+        self.failed_cbs = []
+        self.probe_todo = []     # (port, was held by another program before)
+        self.was_blocked = set()
+        self.blockers = {}       # port -> socket of 'another program' holding it
+        self.opened_ports = []   # ports the library opened for this history
+        self.pred_sink = rig.pred.append
+        self.ports_usable = True   # messages can be sent to ports opened later
         self.log = []            # the history, for witnesses
         self.feat = {'messages': 0, 'expected_inv': 0, 'state_ops': 0,
                      'negatives': 0, 'in_cb_ops': 0, 'bundles': 0,
-                     'pattern_msgs': 0, 'short_msgs': 0}
+                     'pattern_msgs': 0, 'short_msgs': 0, 'failed': 0}
         base = rng.choice(gen.HIST_PATHS)
         self.paths = sorted(set([base] + gen.related_paths(rng, base)
                                 + rng.sample(gen.HIST_PATHS, 3)))
@@ -107,10 +171,80 @@ class HistoryRunner:
             # fault sequence: the function raises on its k-th invocation(s)
             spec['raises'] = [rng.choice([[1], [1], [2], [1, 2], [1, 3], list(range(1, 40))]),
                               rng.choice(sorted(FAULTS))]
+        if rng.random() < self.P_FAIL:
+            self._make_failing(spec, rng.choice(FAIL_CHOICES))
         self.next_rid += 1
         return spec
 
+    P_FAIL = 0.06
+
+    def _make_failing(self, spec, kind):
+        """A creation that cannot succeed: the receive port is held by another
+        program / is no port number, or the path is no path."""
+        spec['fail'] = kind
+        if kind == 'port-in-use':
+            try:
+                port, sock = self.rig.block_port()
+            except OSError:
+                spec.pop('fail')
+                return
+            self.blockers[port] = sock
+            self.was_blocked.add(port)
+            spec['recv_port'] = port
+        elif kind == 'port-out-of-range':
+            spec['recv_port'] = self.rng.choice([65536, 70000, 1 << 20])
+        elif kind == 'port-negative':
+            spec['recv_port'] = self.rng.choice([-1, -57120])
+        elif kind == 'port-not-int':
+            spec['recv_port'] = self.rng.choice(['57120', 57120.5])
+        elif kind == 'path-empty':
+            spec['path_arg'] = ''
+        else:
+            spec['path_arg'] = self.rng.choice([None, 7, b'/a'])
+
+    def _retry_spec(self, spec):
+        """The same creation once more (the obstacle is gone)."""
+        again = {k: v for k, v in spec.items() if k not in ('fail', 'raises')}
+        again['rid'] = self.next_rid
+        self.next_rid += 1
+        return again
+
+    def release_port(self, port):
+        sock = self.blockers.pop(port, None)
+        if sock is not None:
+            sock.close()
+
     def _real_create(self, spec):
+        """-> created?  A creation that is meant to fail (spec['fail']) and
+        raises leaves nothing behind (checked by check_failed_residue and by
+        every later message: its function must never be invoked)."""
+        if not spec.get('fail'):
+            self._construct(spec)
+            return True
+        kind = spec['fail']
+        reason = FAIL_KINDS[kind]
+        try:
+            self._construct(spec)
+        except DecoratorResult:
+            raise
+        except Exception as e:
+            self.failed[spec['rid']] = reason
+            self.failed_cbs.append(self._last_cb)
+            self.residue_todo.append((spec['rid'], self._last_cb, reason))
+            self.feat['failed'] += 1
+            self.acc.count('failed_creations')
+            self.acc.count(f'failed_creations/{kind}/{exc_name(e)}')
+            return False
+        # it did not fail
+        self.acc.count('observed_creation_expected_to_fail_succeeded/' + kind)
+        if kind == 'port-in-use':
+            return True          # a responder like any other
+        obj = self.objs.pop(spec['rid'])
+        obj.free()               # outside the documented domain: not followed
+        self.failed[spec['rid']] = reason + '/accepted-then-freed'
+        return False
+
+    def _construct(self, spec):
         from sc3.base.responders import OscFunc
         from sc3.base.netaddr import NetAddr
         rid = spec['rid']
@@ -118,9 +252,9 @@ class HistoryRunner:
             self.fault_plan[rid] = (set(spec['raises'][0]), spec['raises'][1])
         src = NetAddr(spec['src'][0], spec['src'][1]) if spec['src'] else None
         self.real_fver[rid] = 0
-        cb = self.make_cb(rid, 0, spec['nparams'])
+        cb = self._last_cb = self.make_cb(rid, 0, spec['nparams'])
         path = spec.get('path_arg', spec['path'])
-        tmpl = real_template(spec['template'])
+        tmpl = real_template(spec['template'], rid, self.pred_sink)
         disp = None
         if spec.get('disp'):
             disp = self._dispatcher(spec['kind'], spec['disp'])
@@ -161,6 +295,15 @@ class HistoryRunner:
             self.acc.count('created_on_dispatcher_instance')
         self.objs[rid] = obj
         self.objs[rid]._vf_nparams = spec['nparams']
+        port = spec['recv_port']
+        if port is not None and port != self.rig.itf.port and port not in self.rig.extra:
+            # the library opened the port for this responder
+            if self.rig.adopt_port(port) is not None:
+                self.opened_ports.append(port)
+                if self.ports_usable:
+                    self.ports.append(port)
+                    self.probe_todo.append((port, port in self.was_blocked))
+                self.acc.count('recv_ports_opened_by_creation')
 
     def _dispatcher(self, kind, n):
         d = self.disps.get((kind, n))
@@ -181,8 +324,7 @@ class HistoryRunner:
         on the real side: used from inside callbacks too).  -> performed?"""
         name = op[0]
         if name == 'create':
-            self._real_create(op[1])
-            return True
+            return self._real_create(op[1])
         if name == 'cmd_period':
             from sc3.base.systemactions import CmdPeriod
             if len(op) > 1 and op[1] == 'hard':
@@ -321,7 +463,86 @@ class HistoryRunner:
                 self.feat['state_ops'] += 1
             self.acc.count('hist_op/' + op[0] + ('-hard' if op[0] == 'cmd_period'
                                                   and len(op) > 1 else ''))
+        self.check_failed_residue()
         self.check_enabled_flags('after-' + op[0])
+        return done
+
+    def create(self, spec):
+        """Top-level creation; a creation that failed because another program
+        held the receive port is (mostly) tried again once that program is
+        gone - the usual continuation - or the port stays taken."""
+        done = self.top_op(('create', spec))
+        if done or spec.get('fail') != 'port-in-use':
+            return
+        k = self.rng.random()
+        if k < 0.7:
+            self.release_port(spec['recv_port'])
+            again = self._retry_spec(spec)
+            self.acc.count('failed_creation_retries')
+            if self.top_op(('create', again)):
+                self.acc.count('failed_creation_retries_succeeded')
+        elif k < 0.85:
+            # tried again while the port is still taken: fails again
+            again = self._retry_spec(spec)
+            again['fail'] = 'port-in-use'
+            self.acc.count('failed_creation_retries')
+            self.top_op(('create', again))
+
+    def check_failed_residue(self):
+        """A creation that raised must have left nothing registered: no
+        responder with its function in the class-level listing, in a
+        dispatcher (class defaults and this history's instances) or among the
+        CmdPeriod actions.  (The caller never got the object: nobody could
+        disable or free it.)  Also (harness thread only, never inside a
+        callback): the loop-back probe of ports opened by a creation."""
+        while self.probe_todo:
+            # "recv_port: ... it will open an UDP port if not opened already":
+            # the port of a responder just created receives
+            port, after_failure = self.probe_todo.pop()
+            self.acc.count('opened_port_probes')
+            if self.rig.probe_port(port) is False:
+                self.violation('C18/recv-port/port-of-created-responder-does-not-receive'
+                               + ('/after-failed-creation' if after_failure else ''),
+                               port=port)
+        if not self.residue_todo:
+            return
+        from sc3.base.responders import OscFunc
+        from sc3.base.systemactions import CmdPeriod
+        todo, self.residue_todo = self.residue_todo, []
+        for rid, cb, reason in todo:
+            def mine(x):
+                return x is not None and (getattr(x, 'func', None) is cb
+                                          or getattr(x, '_func', None) is cb)
+            where = []
+            if any(mine(x) for x in list(OscFunc._all_func_proxies)):
+                where.append('class-listing')
+            disps = [OscFunc._default_dispatcher, OscFunc._default_matching_dispatcher]
+            disps += list(self.disps.values())
+            if any(mine(x) for d in disps for x in list(getattr(d, 'wrapped_funcs', ()))):
+                where.append('dispatcher')
+            if any(mine(getattr(a, '__self__', None)) for a in list(CmdPeriod._actions)):
+                where.append('cmdperiod')
+            self.acc.count('failed_creation_residue_checks')
+            if where:
+                self.violation('C18/failed-creation/responder-left-registered/' + reason,
+                               rid=rid, where=where)
+
+    def check_predicate_calls(self, calls, arg_lists):
+        """Documentation of arg_template: a function item is 'evaluated with
+        the corresponding message's value at the same position'.  Every
+        evaluation the recording predicates saw must therefore have been given
+        the argument at the predicate's position of a message of this
+        datagram - never a value no message has there (padding for a missing
+        argument, another position, the address)."""
+        for rid, pos, name, value in calls:
+            self.acc.count('template_predicate_calls_checked')
+            if any(len(g) > pos and same_value(g[pos], value) for g in arg_lists):
+                continue
+            missing = any(len(g) <= pos for g in arg_lists)
+            self.violation('C18/arg-template/predicate-called-with-value-not-in-message/'
+                           + ('argument-missing' if missing else 'other-value'),
+                           rid=rid, position=pos, predicate=name, value=repr(value)[:80],
+                           messages=_j(arg_lists)[:4])
 
     def check_enabled_flags(self, when):
         """The public `enabled` attribute must agree with the model; catches a
@@ -418,7 +639,8 @@ class HistoryRunner:
                          and (r.src[1] is None or r.src[1] == s[1])]
                 if cands:
                     sender = rng.choice(cands)
-            if r.recv_port is not None and rng.random() < 0.7:
+            if r.recv_port is not None and rng.random() < 0.7 \
+                    and r.recv_port in self.ports:
                 port = r.recv_port
         else:
             addr = rng.choice(self.paths + [gen.rand_path(rng, 0.05)])
@@ -487,6 +709,8 @@ class HistoryRunner:
             self.violation('C18/receiver-dead/after-valid-datagram', res=res.witness())
         if res.canary_tries > 1:
             acc.count('canary_retries')       # statistic: expected to stay 0
+        self.check_predicate_calls(res.pred, [g for _, _, g in msgs])
+        self.check_failed_residue()          # creations inside callbacks
         injected = [e for e in res.inv if e[0] == 'raised']
         clock_errs = [e for e in res.errs if e['exc']
                       and not e['exc'].startswith(INJECTED_PREFIX)]
@@ -644,6 +868,10 @@ class HistoryRunner:
                 feat['short_msgs'] += 1
                 acc.count('messages_shorter_than_template')
                 break
+        for rid, v in exp.items():
+            r = m.resps[rid]
+            if v == 'either' and r.template and self._predicate_beyond(r.template, args):
+                acc.count('predicate_items_beyond_message')
         # exactly-once / never
         for rid, v in exp.items():
             c = counts.get(rid, 0)
@@ -680,6 +908,10 @@ class HistoryRunner:
                                else 'C18/unexpected-invocation/' + why,
                                rid=rid, msg=_j([addr] + args), sender=sender, port=port)
         for rid in counts:
+            if rid in self.failed:
+                self.violation('C18/failed-creation/invoked-although-creation-failed/'
+                               + self.failed[rid], rid=rid, count=counts[rid],
+                               msg=_j([addr] + args), port=port)
             if rid not in exp and rid not in touched:
                 self.violation('C18/unexpected-invocation/unknown-responder', rid=rid)
         # arguments
@@ -730,6 +962,23 @@ class HistoryRunner:
             elif e[0] == 'op':
                 self._model_op(e[2])
 
+    @staticmethod
+    def _predicate_beyond(template, args):
+        """Is a function item the first template item that has no argument to
+        look at (everything before it accepts)?  Only then does the argument
+        matcher get as far as that item."""
+        for i, item in enumerate(template):
+            if i < len(args):
+                if item is None:
+                    continue
+                if item[0] == 'val' and item[1] != args[i]:
+                    return False
+                if item[0] == 'fn' and not PREDICATES[item[1]](args[i]):
+                    return False
+            elif item is not None:
+                return item[0] == 'fn'
+        return False
+
     def _why_missed(self, r, removed_now, addr=None):
         m = self.model
         for q in removed_now:
@@ -757,13 +1006,13 @@ class HistoryRunner:
         names, ws = zip(*weights.items())
         try:
             for _ in range(rng.randint(1, 4)):
-                self.top_op(('create', self._new_spec()))
+                self.create(self._new_spec())
             for _ in range(n_ops):
                 name = rng.choices(names, ws)[0]
                 alive = [r for r in m.resps.values() if not r.freed]
                 if name == 'create':
                     if len(alive) < 10:
-                        self.top_op(('create', self._new_spec()))
+                        self.create(self._new_spec())
                 elif name == 'msg':
                     self.send()
                 elif name == 'cmd_period':
@@ -794,7 +1043,7 @@ class HistoryRunner:
                                     'set_func', 'free-self', 'disable-self'])
                     if k == 'create':
                         op = ('create', self._new_spec())
-                        if rng.random() < 0.6:
+                        if rng.random() < 0.6 and not op[1].get('fail'):
                             op[1]['path'], op[1]['kind'] = h.path, h.kind
                             op[1].pop('path_arg', None)
                             op[1]['disp'] = h.disp
@@ -826,12 +1075,15 @@ class HistoryRunner:
                 self.top_op(('trace', False, False))
             for k in sorted(self.disps):
                 self.top_op(('disp_free', k))
+            probe_ports = [None] + (list(self.opened_ports) if self.ports_usable else [])
             for p in sorted({r.path for r in m.resps.values()}):
-                d = osc.enc_msg(p, 1, 2, 'hello')
-                self.log.append(['dgram', {'hex': d.hex(), 'epilogue': True}])
-                res = self.rig.deliver(d, self.senders[0], None, udp=self.udp)
-                self.check_delivery(d, [(None, p, [1, 2, 'hello'])], res)
-                self.acc.count('epilogue_probes')
+                for port in probe_ports:
+                    d = osc.enc_msg(p, 1, 2, 'hello')
+                    self.log.append(['dgram', {'hex': d.hex(), 'epilogue': True,
+                                               'port': port}])
+                    res = self.rig.deliver(d, self.senders[0], port, udp=self.udp)
+                    self.check_delivery(d, [(None, p, [1, 2, 'hello'])], res)
+                    self.acc.count('epilogue_probes')
             # residue: a freed responder must not stay registered with CmdPeriod
             from sc3.base.systemactions import CmdPeriod
             mine = {id(o) for o in self.objs.values()}
@@ -858,6 +1110,13 @@ class HistoryRunner:
                 except Exception:
                     pass
             try:
+                from sc3.base.responders import OscFunc
+                for x in list(OscFunc._all_func_proxies):
+                    if any(getattr(x, '_func', None) is cb for cb in self.failed_cbs):
+                        x.free()
+            except Exception:
+                pass
+            try:
                 from sc3.base.systemactions import CmdPeriod
                 for a in [a for a in CmdPeriod._actions
                           if any(getattr(a, '__self__', None) is o
@@ -869,6 +1128,21 @@ class HistoryRunner:
         finally:
             self.rig.on_invoke = None
             self.armed.clear()
+            self.cleanup_ports()
+
+    def cleanup_ports(self):
+        """The other programs go away and the ports the library opened for
+        this history are closed again (public API), so that the next history
+        finds them free."""
+        for port in list(self.blockers):
+            self.release_port(port)
+        for port in self.opened_ports:
+            try:
+                if not self.rig.close_port(port):
+                    self.acc.count('observed_extra_port_not_closed')
+            except Exception as e:
+                self.acc.count('observed_close_udp_port_raises/' + exc_name(e))
+        self.opened_ports = []
 
 
 def _j(x):
